@@ -63,6 +63,13 @@ Ext(b, ty) ==
             {BoolOp("and", <<b, BoolC(TRUE)>>), UnOp("not", b), IfExp(b, IntC(1), FloatC("2.5")),
              IfExp(b, IntC(1), IntC(2))}
           ELSE {})
+    \* the same parameterised type by two routes: annotation Iterable[Jet] and Box[Jet].items() -> Iterable[T]
+    \cup (IF ty = Iter(Ty0("Jet")) /\ itemT = Ty0("Evt")
+          THEN {IfExp(Meth(E0, "flag", <<>>), b, Meth(Meth(E0, "box", <<>>), "items", <<>>)),
+                IfExp(Meth(E0, "flag", <<>>), Meth(Meth(E0, "jb", <<>>), "items", <<>>), b)}
+          ELSE {})
+    \cup (IF ty = Ty0("Jet") /\ itemT = Ty0("Evt")
+          THEN {IfExp(Meth(E0, "flag", <<>>), b, Meth(Meth(E0, "box", <<>>), "item", <<>>))} ELSE {})
     \cup {Attr(Dct(<<StrC("k"), b, StrC("n"), IntC(1)>>), "k"), Sub(Dct(<<StrC("k"), b>>), StrC("k")),
           Sub(Tup(<<IntC(1), b>>), IntC(1))}
 
